@@ -24,7 +24,7 @@ def units(tier, seed):
         us.append({'name': f'fcbo_dual {m}x{n}', 'fn': 'unit_fcbo', 'args': {'n': m, 'm': n, 'which': 'dual'},
                    'split': 6 if m >= 3 else 0})
     us += _mk.table_units(t)
-    us += _mk.inductive_units(tier) + _mk.skeleton_units(tier, seed)
+    us += _mk.inductive_units(tier) + _mk.skeleton_kernel_units(tier, seed) + _mk.skeleton_units(tier, seed)
     return _mk.order(us)
 
 
